@@ -35,6 +35,7 @@ REPO = os.environ.get("VERIF_REPO", "/repo")
 WORK = os.environ.get("VERIF_WORK", "/var/tmp/dropshot-verif")
 
 VERIFICATION_FAILURES = (
+    "unable to prove post-condition of closure",
     "postcondition not satisfied",
     "precondition not satisfied",
     "assertion failed",
@@ -1074,6 +1075,47 @@ def enumerate_obligations(text: str) -> Tuple[List[str], Dict[str, Tuple[int, in
     return obs, ranges, lab_of_line
 
 
+_NOT_CALLEES = {"if", "match", "while", "for", "return", "fn", "loop", "in", "as", "let", "assert", "forall", "exists", "choose", "requires", "ensures", "invariant", "decreases", "proof", "implies", "by"}
+
+
+def callee_vocabulary(text: str) -> set:
+    """(kind, name) for every call-like token in `text`: ("m", x) for `.x(`, ("f", x) for `x(` / `path::x(`,
+    ("!", x) for `x!(`.  Used to notice that extracted code now calls something its contract was never proved
+    against (whose vstd contract may be too weak to decide anything): failures there are UNDECIDED, not violations."""
+    toks = R.code_tokens(R.lex(text))
+    out = set()
+    for i, t in enumerate(toks[:-1]):
+        if t.kind != "ident" or t.text in _NOT_CALLEES:
+            continue
+        nxt = toks[i + 1].text
+        if nxt == "(":
+            kind = "m" if i > 0 and toks[i - 1].text == "." else "f"
+            out.add((kind, t.text))
+        elif nxt == "::" and i + 3 < len(toks) and toks[i + 2].text == "<":
+            pass
+        elif nxt == "!" and i + 2 < len(toks) and toks[i + 2].text in R.OPEN:
+            out.add(("!", t.text))
+    return out
+
+
+def vstd_precise_names() -> set:
+    """method/function names for which the installed vstd ships a contract on a CONCRETE type (decoded from vstd.vir,
+    tools/vstd_specs_decoded.txt); blanket entries `<T as Trait>::m` are excluded: their contracts are stated through
+    uninterpreted per-type spec functions and may decide nothing for a given type (e.g. Ord::min on NonZeroU32)."""
+    out = set()
+    try:
+        for l in open(os.path.join(os.path.dirname(os.path.abspath(__file__)), "vstd_specs_decoded.txt")):
+            l = l.strip()
+            if not l or l.startswith("<Tas") or l.startswith("<T as"):
+                continue
+            m = re.search(r"::([A-Za-z_][A-Za-z0-9_]*)(?:::<[^>]*>)?$", l)
+            if m:
+                out.add(m.group(1))
+    except OSError:
+        pass
+    return out
+
+
 def scan_trusted(text: str) -> List[str]:
     """Mechanical scan for assumptions in the assembled file."""
     out = []
@@ -1224,6 +1266,32 @@ def check_unit(name: str, variant: Optional[str] = None, rlimit: Optional[float]
     if ur.status == "ok" and not all(ur.sentinels.values()):
         ur.status = "undecided"
         ur.reason = "vacuity: sentinel(s) that must fail were verified: " + ", ".join(s for s, v in ur.sentinels.items() if not v)
+    # vocabulary guard
+    vocab_path = os.path.join(unit.dir, "vocabulary.lock")
+    vocab_now = callee_vocabulary(text)
+    if relock and not variant:
+        with open(vocab_path, "w") as f:
+            f.write("\n".join(sorted(k + " " + n for k, n in vocab_now)) + "\n")
+    if os.path.exists(vocab_path) and ur.failed:
+        locked = {tuple(l.split()) for l in open(vocab_path) if l.strip()}
+        downgraded = []
+        for ch in unit.chunks:
+            if ch.origin != "repo":
+                continue
+            precise = vstd_precise_names()
+            new = sorted(x for x in (callee_vocabulary(ch.text) - locked) if x[1] not in precise)
+            if not new:
+                continue
+            a, b = ch.out_lines
+            hit = [f for f in ur.failed if a <= f.get("line", 0) <= b or f.get("function", "").split("::")[-1] in ch.fns]
+            if hit:
+                downgraded += hit
+                ur.reason += (f"[{ch.label}] now calls {[k + ':' + n for k, n in new][:6]}, which its contract was never proved against "
+                              f"(their library contracts may be too weak to decide): {len(hit)} failed obligation(s) there are undecided, not violations. ")
+        if downgraded:
+            ur.failed = [f for f in ur.failed if f not in downgraded]
+            if not ur.failed:
+                ur.status = "undecided"
     # lock file
     lock_path = os.path.join(unit.dir, "obligations.lock" + (("." + variant) if variant else ""))
     if relock:
